@@ -515,3 +515,10 @@ impl Color {
         Number(1.0) - (self.red().max(self.green()).max(self.blue()) / Number(255.0))
     }
 }
+
+#[cfg(feature = "verif-hooks")]
+impl Color {
+    pub fn verif_hue_to_rgb(m1: f64, m2: f64, hue: f64) -> f64 {
+        Self::hue_to_rgb(m1, m2, hue)
+    }
+}
